@@ -2,6 +2,7 @@ package sym
 
 import (
 	"fmt"
+	"strings"
 
 	"gosym/smt"
 
@@ -15,115 +16,194 @@ func (ex *Exec) runnable(g *G) bool { return g.Status == GRunnable && len(g.Fram
 // visible is called at the start of every visible operation of the current goroutine.
 func (ex *Exec) visible(st *State, what string) { ex.visibleOp(st, what, false) }
 
-// globalAccess is called before a load/store/lookup/update of a heap object that existed after init.
-func (ex *Exec) globalAccess(st *State, id ObjID, write bool, what string) {
-	if st.Eraser && !ex.InitMode {
-		ex.eraser(st, id, write, what)
+// globalAccess is called before a load/store/lookup/update of heap object id (sub: first path element, -1 for maps).
+func (ex *Exec) globalAccess(st *State, id ObjID, sub int, write bool) {
+	if ex.InitMode || !st.Eraser || ex.noTrack {
 		return
 	}
-	if ex.InitMode || !st.RacyOnly || id > ex.BaseMax {
-		return
-	}
-	if write {
-		ex.visibleOp(st, "write "+what, true)
-		if st.Dirty == nil {
-			st.Dirty = map[ObjID]bool{}
+	if ex.UseRacySites {
+		// pass 2: accesses at sites the discovery pass reported are visible operations
+		site := ex.whereSite(st)
+		if ex.RacySites[site] {
+			ex.curSite = site
+			ex.visibleOp(st, accessName(write, id), true)
 		}
-		st.Dirty[id] = true
-		ex.sh.mu.Lock()
-		ex.WriteAfterInit[what+" @ "+ex.where(st)] = true
-		ex.sh.mu.Unlock()
 		return
 	}
-	if st.Dirty[id] {
-		ex.visibleOp(st, "read "+what, true)
-	}
+	ex.hbAccess(st, id, sub, write)
 }
 
-func intersect(a, b []string) []string {
-	var out []string
-	for _, x := range a {
-		for _, y := range b {
-			if x == y {
-				out = append(out, x)
-				break
-			}
+func accessName(write bool, id ObjID) string {
+	if write {
+		return fmt.Sprintf("write obj%d", id)
+	}
+	return fmt.Sprintf("read obj%d", id)
+}
+
+// ---- happens-before race discovery (pass 1) ----
+//
+// Vector clocks per goroutine; edges: go statement, mutex unlock->lock, RWMutex, channel send/close->receive,
+// WaitGroup Done->Wait, Cond Signal/Broadcast->wake-up, atomic operations.  Two accesses to the same location
+// (object, first path element), at least one a write, not ordered by happens-before, make both sites racy.
+// The report is a candidate list for pass 2 (pre-emption points); for package-level state it is also a
+// "race" finding that has to be confirmed by Go's race detector on native replay.
+
+type hbLoc struct {
+	Obj ObjID
+	Sub int
+}
+
+type hbEpoch struct {
+	G     int
+	Clock int
+	Site  string
+}
+
+type hbInfo struct {
+	W     hbEpoch   // last write (G<0: none)
+	Reads []hbEpoch // reads since the last write, one per goroutine
+}
+
+func vcGet(vc []int, g int) int {
+	if g < len(vc) {
+		return vc[g]
+	}
+	return 0
+}
+
+func vcJoin(a, b []int) []int {
+	n := len(a)
+	if len(b) > n {
+		n = len(b)
+	}
+	out := make([]int, n)
+	for i := range out {
+		x, y := vcGet(a, i), vcGet(b, i)
+		if y > x {
+			x = y
 		}
+		out[i] = x
 	}
 	return out
 }
 
-// eraser implements the lockset discipline check; objects found racy become visible operations.
-func (ex *Exec) eraser(st *State, id ObjID, write bool, what string) {
+func (g *G) tick() {
+	for len(g.VC) <= g.ID {
+		g.VC = append(g.VC, 0)
+	}
+	vc := append([]int(nil), g.VC...)
+	vc[g.ID]++
+	g.VC = vc
+}
+
+// hbRelease publishes the current goroutine's clock on sync object key; hbAcquire imports it.
+func (ex *Exec) hbRelease(st *State, key string) {
+	if !st.Eraser || ex.UseRacySites {
+		return
+	}
 	g := st.g()
+	if st.SyncVC == nil {
+		st.SyncVC = map[string][]int{}
+	}
+	if len(g.VC) == 0 {
+		g.tick()
+	}
+	st.SyncVC[key] = vcJoin(st.SyncVC[key], g.VC)
+	g.tick()
+}
+
+func (ex *Exec) hbAcquire(st *State, key string) {
+	if !st.Eraser || ex.UseRacySites {
+		return
+	}
+	g := st.g()
+	if vc, ok := st.SyncVC[key]; ok {
+		g.VC = vcJoin(g.VC, vc)
+	}
+}
+
+func (ex *Exec) hbFork(st *State, parent, child *G) {
+	if !st.Eraser || ex.UseRacySites {
+		return
+	}
+	if len(parent.VC) == 0 {
+		parent.tick()
+	}
+	child.VC = append([]int(nil), parent.VC...)
+	child.tick()
+	parent.tick()
+}
+
+func (ex *Exec) hbAccess(st *State, id ObjID, sub int, write bool) {
+	g := st.g()
+	if len(g.VC) == 0 {
+		g.tick()
+	}
+	if st.HB == nil {
+		st.HB = map[hbLoc]*hbInfo{}
+	}
+	loc := hbLoc{id, sub}
 	site := ex.whereSite(st)
-	if st.Dirty[id] || (ex.UseRacySites && ex.RacySites[site]) {
-		if !ex.UseRacySites {
-			ex.sh.mu.Lock()
-			ex.RacySites[site] = true
-			ex.sh.mu.Unlock()
-		}
-		ex.curSite = site
-		ex.visibleOp(st, map[bool]string{true: "write ", false: "read "}[write]+what, true)
-		return
-	}
-	if st.Acc == nil {
-		st.Acc = map[ObjID]accInfo{}
-	}
-	a, ok := st.Acc[id]
+	cur := hbEpoch{g.ID, vcGet(g.VC, g.ID), site}
+	info, ok := st.HB[loc]
 	if !ok {
-		st.Acc[id] = accInfo{Owner: g.ID, Sites: []string{site}}
+		ni := &hbInfo{W: hbEpoch{G: -1}}
+		if write {
+			ni.W = cur
+		} else {
+			ni.Reads = []hbEpoch{cur}
+		}
+		st.HB[loc] = ni
 		return
 	}
-	if !ex.UseRacySites {
-		known := false
-		for _, x := range a.Sites {
-			if x == site {
-				known = true
-				break
+	ordered := func(e hbEpoch) bool { return e.G < 0 || e.G == g.ID || e.Clock <= vcGet(g.VC, e.G) }
+	var conflicts []hbEpoch
+	if !ordered(info.W) {
+		conflicts = append(conflicts, info.W)
+	}
+	if write {
+		for _, r := range info.Reads {
+			if !ordered(r) {
+				conflicts = append(conflicts, r)
 			}
 		}
-		if !known {
-			a.Sites = append(append([]string(nil), a.Sites...), site)
-			st.Acc[id] = a
-		}
 	}
-	switch a.State {
-	case 0:
-		if a.Owner == g.ID {
-			return
-		}
-		a.Lockset = append([]string(nil), g.Held...)
-		a.State = 1
-		if write {
-			a.State = 2
-		}
-	case 1:
-		a.Lockset = intersect(a.Lockset, g.Held)
-		if write {
-			a.State = 2
-		}
-	case 2:
-		a.Lockset = intersect(a.Lockset, g.Held)
-	}
-	st.Acc[id] = a
-	if a.State == 2 && len(a.Lockset) == 0 {
-		if st.Dirty == nil {
-			st.Dirty = map[ObjID]bool{}
-		}
-		st.Dirty[id] = true
-		if !ex.UseRacySites {
-			ex.sh.mu.Lock()
-			ex.RacySites[site] = true
-			for _, x := range a.Sites {
-				ex.RacySites[x] = true
+	ni := &hbInfo{W: info.W}
+	if write {
+		ni.W = cur
+	} else {
+		for _, r := range info.Reads {
+			if r.G != g.ID {
+				ni.Reads = append(ni.Reads, r)
 			}
-			ex.sh.mu.Unlock()
 		}
-		st.SchedTrace = append(st.SchedTrace, fmt.Sprintf("DIRTY %s by g%d @ %s", what, g.ID, ex.whereSite(st)))
-		ex.sh.mu.Lock()
-		ex.WriteAfterInit["lockset-empty "+what+" @ "+ex.where(st)] = true
-		ex.sh.mu.Unlock()
+		ni.Reads = append(ni.Reads, cur)
+	}
+	st.HB[loc] = ni
+	if len(conflicts) == 0 {
+		return
+	}
+	ex.sh.mu.Lock()
+	ex.RacySites[site] = true
+	for _, c := range conflicts {
+		ex.RacySites[c.Site] = true
+	}
+	ex.sh.mu.Unlock()
+	if st.ReportRaces && id <= ex.BaseMax {
+		name := ex.GlobalNames[id]
+		if name == "" {
+			name = fmt.Sprintf("package-level object %d", id)
+		}
+		if !strings.Contains(name, "zzverif") {
+			if ex.raceSeen == nil {
+				ex.raceSeen = map[string]int{}
+			}
+			ex.raceSeen[name]++
+			if ex.raceSeen[name] <= 3 { // a few witnesses per object and worker are enough
+				st.SchedTrace = append(st.SchedTrace, fmt.Sprintf("RACE on %s: g%d @ %s vs g%d @ %s", name, g.ID, site, conflicts[0].G, conflicts[0].Site))
+				ex.report(st, "race", "unsynchronised concurrent access to "+name, nil)
+			}
+		}
 	}
 }
 
@@ -224,6 +304,8 @@ func (ex *Exec) tryLock(st *State, key string) bool {
 	}
 	st.Locks[key] = st.g().ID + 1
 	st.g().Held = append(st.g().Held, key)
+	ex.hbAcquire(st, key)
+	ex.hbAcquire(st, "r"+key)
 	return true
 }
 
@@ -231,6 +313,7 @@ func (ex *Exec) unlock(st *State, key string) {
 	if st.Locks[key] == 0 {
 		ex.goPanic(st, "sync: unlock of unlocked mutex")
 	}
+	ex.hbRelease(st, key)
 	st.Locks[key] = 0
 	if g := st.g(); true {
 		for i, k := range g.Held {
@@ -249,6 +332,7 @@ func (ex *Exec) unlock(st *State, key string) {
 }
 
 func registerSync(ex *Exec) {
+	registerAtomic(ex)
 	I := ex.Intr
 	lock := func(name string) Intrinsic {
 		return func(ex *Exec, st *State, args []Value, call ssa.CallInstruction) (Value, bool) {
@@ -288,6 +372,7 @@ func registerSync(ex *Exec) {
 		if st.Locks[key] == 0 {
 			st.Locks["r"+key]++
 			st.g().Held = append(st.g().Held, "r"+key)
+			ex.hbAcquire(st, key)
 			return nil, true
 		}
 		return ex.blockOn(st, GBlockedLock, key)
@@ -298,6 +383,7 @@ func registerSync(ex *Exec) {
 		if st.Locks["r"+key] == 0 {
 			ex.goPanic(st, "sync: RUnlock of unlocked RWMutex")
 		}
+		ex.hbRelease(st, "r"+key)
 		st.Locks["r"+key]--
 		g := st.g()
 		for i, k := range g.Held {
@@ -351,6 +437,7 @@ func registerSync(ex *Exec) {
 		}
 		// woken: re-acquire L
 		if ex.tryLock(st, lk) {
+			ex.hbAcquire(st, ck)
 			g.CondPhase = 0
 			if st.Sched {
 				st.SchedTrace = append(st.SchedTrace, fmt.Sprintf("g%d woke from %s", g.ID, ck))
@@ -374,12 +461,14 @@ func registerSync(ex *Exec) {
 	I["(*sync.Cond).Signal"] = func(ex *Exec, st *State, args []Value, call ssa.CallInstruction) (Value, bool) {
 		ck := "cond" + lockKey(args[0].(Ptr))
 		ex.visible(st, "Signal "+ck)
+		ex.hbRelease(st, ck)
 		wakeCond(st, ck, false)
 		return nil, true
 	}
 	I["(*sync.Cond).Broadcast"] = func(ex *Exec, st *State, args []Value, call ssa.CallInstruction) (Value, bool) {
 		ck := "cond" + lockKey(args[0].(Ptr))
 		ex.visible(st, "Broadcast "+ck)
+		ex.hbRelease(st, ck)
 		wakeCond(st, ck, true)
 		return nil, true
 	}
@@ -388,6 +477,9 @@ func registerSync(ex *Exec) {
 		ex.visible(st, "wg.Add "+key)
 		if st.Locks == nil {
 			st.Locks = map[string]int{}
+		}
+		if int64(args[1].(*smt.Term).Val) < 0 {
+			ex.hbRelease(st, key)
 		}
 		st.Locks[key] += int(int64(args[1].(*smt.Term).Val))
 		if st.Locks[key] == 0 {
@@ -403,6 +495,7 @@ func registerSync(ex *Exec) {
 	I["(*sync.WaitGroup).Done"] = func(ex *Exec, st *State, args []Value, call ssa.CallInstruction) (Value, bool) {
 		key := "wg" + lockKey(args[0].(Ptr))
 		ex.visible(st, "wg.Done "+key)
+		ex.hbRelease(st, key)
 		st.Locks[key]--
 		if st.Locks[key] < 0 {
 			ex.goPanic(st, "sync: negative WaitGroup counter")
@@ -421,6 +514,7 @@ func registerSync(ex *Exec) {
 		key := "wg" + lockKey(args[0].(Ptr))
 		ex.visible(st, "wg.Wait "+key)
 		if st.Locks[key] == 0 {
+			ex.hbAcquire(st, key)
 			return nil, true
 		}
 		return ex.blockOn(st, GBlockedLock, key)
@@ -450,6 +544,13 @@ func registerSync(ex *Exec) {
 		st.RacyOnly = true // pre-empt only at accesses to objects whose lockset became empty
 		st.Eraser = true
 		st.MaxPreempt = int(args[0].(*smt.Term).Val)
+		if !ex.UseRacySites && ex.TwoPass {
+			st.MaxPreempt = ex.Pass1Preempt // discovery pass: the lockset check does not need pre-emptions
+		}
+		return nil, true
+	}
+	I[zz+"ReportRaces"] = func(ex *Exec, st *State, args []Value, call ssa.CallInstruction) (Value, bool) {
+		st.ReportRaces = true
 		return nil, true
 	}
 	I[zz+"ScheduleRacy"] = func(ex *Exec, st *State, args []Value, call ssa.CallInstruction) (Value, bool) {
@@ -528,4 +629,42 @@ func (ex *Exec) pickNext(st *State) bool {
 	}
 	st.Cur = cands[0]
 	return true
+}
+
+// sync/atomic: read-modify-write executed in one step, ordered by happens-before through the address.
+func registerAtomic(ex *Exec) {
+	I := ex.Intr
+	atomicOp := func(name string, f func(ex *Exec, st *State, p Ptr, args []Value) Value) {
+		I[name] = func(ex *Exec, st *State, args []Value, call ssa.CallInstruction) (Value, bool) {
+			p := args[0].(Ptr)
+			if p.Obj == 0 {
+				ex.goPanic(st, "nil pointer dereference")
+			}
+			key := "atomic" + lockKey(p)
+			ex.visible(st, name)
+			ex.hbAcquire(st, key)
+			ex.noTrack = true
+			res := f(ex, st, p, args)
+			ex.noTrack = false
+			ex.hbRelease(st, key)
+			return res, true
+		}
+	}
+	for _, t := range []string{"Int32", "Int64", "Uint32", "Uint64", "Uintptr"} {
+		atomicOp("sync/atomic.Add"+t, func(ex *Exec, st *State, p Ptr, args []Value) Value {
+			v := ex.C.BVBin(smt.OAdd, ex.load(st, p).(*smt.Term), args[1].(*smt.Term))
+			ex.store(st, p, v)
+			return v
+		})
+		atomicOp("sync/atomic.Load"+t, func(ex *Exec, st *State, p Ptr, args []Value) Value { return ex.load(st, p) })
+		atomicOp("sync/atomic.Store"+t, func(ex *Exec, st *State, p Ptr, args []Value) Value {
+			ex.store(st, p, args[1])
+			return nil
+		})
+		atomicOp("sync/atomic.Swap"+t, func(ex *Exec, st *State, p Ptr, args []Value) Value {
+			old := ex.load(st, p)
+			ex.store(st, p, args[1])
+			return old
+		})
+	}
 }
